@@ -94,7 +94,15 @@ fn run_op(op: &str, shape: usize, n: usize) -> String {
             "to_string" => { let s = jsonb::to_string(&deep_jsonb(shape, n, 1)); if s.len() >= 2 * n { "ok" } else { "err" } }
             "to_pretty_string" => { let s = jsonb::to_pretty_string(&deep_jsonb(shape, n, 1)); if s.len() >= 2 * n { "ok" } else { "err" } }
             "compare_eq" => { let a = deep_jsonb(shape, n, 1); match jsonb::compare(&a, &a.clone()) { Ok(_) => "ok", Err(_) => "err" } }
-            "compare_ne" => { let a = deep_jsonb(shape, n, 1); let b = deep_jsonb(shape, n, 2); match jsonb::compare(&a, &b) { Ok(_) => "ok", Err(_) => "err" } }
+            "compare_ne" => {
+                // a different bottom, one level deeper, one level shallower with an empty bottom: nested
+                // containers of equal and of different size at every level
+                let a = deep_jsonb(shape, n, 1);
+                let b = deep_jsonb(shape, n, 2);
+                let c = deep_jsonb(shape, n + 1, 1);
+                let d = deep_jsonb(shape, n.saturating_sub(1), 0);
+                match (jsonb::compare(&a, &b), jsonb::compare(&a, &c), jsonb::compare(&c, &a), jsonb::compare(&a, &d)) { (Ok(_), Ok(_), Ok(_), Ok(_)) => "ok", _ => "err" }
+            }
             "get_by_path" => {
                 let a = deep_jsonb(shape, n, 1);
                 let mut res = "ok";
